@@ -10,8 +10,26 @@ from typing import Any, TypeVar
 
 from hypergraph.nodes._rename import RenameEntry, RenameError, get_next_batch_id
 
+
+
+class _EmitSentinel:
+    """Marker auto-produced for emit outputs; copies and unpickles to the one instance."""
+
+    __slots__ = ()
+
+    def __reduce__(self) -> tuple:
+        return (_get_emit_sentinel, ())
+
+    def __repr__(self) -> str:
+        return "<emit>"
+
+
+def _get_emit_sentinel() -> _EmitSentinel:
+    return _EMIT_SENTINEL
+
+
 # Sentinel value auto-produced for emit outputs when a node runs.
-_EMIT_SENTINEL = object()
+_EMIT_SENTINEL = _EmitSentinel()
 
 # TypeVar for self-referential return types (Python 3.10 compatible)
 _T = TypeVar("_T", bound="HyperNode")
